@@ -131,7 +131,9 @@ impl<const MARKER: char, const TOKENIZE: bool> InlineRule for CodePairScanner<MA
                         state.pos = pos;
                         state.pos_max = match_start;
                         drop(backticks);
+                        state.level += 1;
                         state.md.inline.tokenize(state);
+                        state.level -= 1;
                         state.pos_max = max;
 
                         let node = std::mem::replace(&mut state.node, old_node);
